@@ -14,22 +14,25 @@ static const char *const EN[] = { "tick", "SDO 1017h=0", "SDO 1017h=1", "SDO 101
        "app COTmrCreate", "app COTmrDelete", "heartbeat of monitored node", "SDO 1016h:1 rewrite", "SDO 1800h:1 invalid", "SDO 1800h:1 valid" };
 
 static void app_cb(void *p) { (void)p; w_cb(CB_USER, 1, 0, 0); }
-static const char *cfg_name(int c) { static const char *const n[] = { "1kHz hb=2ms", "1kHz hb=0", "100Hz hb=20ms", "1kHz hb=2ms node 10 OPERATIONAL" }; return n[c]; }
+static const char *cfg_name(int c) { static const char *const n[] = { "1kHz hb=2ms", "1kHz hb=0", "100Hz hb=20ms", "1kHz hb=2ms node 10 OPERATIONAL", "1kHz hb=0, TPDO event time 1 ms, OPERATIONAL" }; return n[c]; }
 
 static int build(int cfg)
 {
     nc_defaults();
     NC.freq = cfg == 2 ? 100 : 1000; TPM = cfg == 2 ? 10 : 1;    /* at 100 Hz the harness uses 10 ms units: "1 ms" below means 10 ms */
     NC.node_id = cfg == 3 ? 10 : 1; NID = NC.node_id;
-    NC.hbprod = 1; NC.hb_time = (uint16_t)((cfg == 1 ? 0 : 2) * TPM);
+    NC.hbprod = 1; NC.hb_time = (uint16_t)((cfg == 1 || cfg == 4 ? 0 : 2) * TPM);
     NC.n_hbc = 1; NC.hbc[0].node = 9; NC.hbc[0].time = (uint16_t)(2 * TPM);
     NC.sync = 1; NC.sync_id = 0x80; NC.sync_cycle = 0;
     NC.n_tpdo = 1; NC.tpdo[0].present = 1; NC.tpdo[0].cobid = 0x40000180u + NID; NC.tpdo[0].type = 254; NC.tpdo[0].nmap = 1; NC.tpdo[0].map[0] = NC_MAP(0x2100, 0, 8);
-    NC.operational = (cfg == 3);
+    /* cfg 4: the TPDO owns an event timer from the start, so that short histories reach "an event expiry outside OPERATIONAL,
+     * then the producer is started, then the TPDO is re-initialised" - timer ids wandering between the two services */
+    if (cfg == 4) NC.tpdo[0].event = 1;
+    NC.operational = (cfg == 3 || cfg == 4);
     nc_build();
     (void)CONodeGetErr(&Node);
     memset(&M, 0, sizeof M);
-    M.mode = NC.operational ? M_OP : M_PREOP; M.period = (uint16_t)(cfg == 1 ? 0 : 2); M.rem = M.period; M.apptmr = -1;
+    M.mode = NC.operational ? M_OP : M_PREOP; M.period = (uint16_t)(cfg == 1 || cfg == 4 ? 0 : 2); M.rem = M.period; M.apptmr = -1;
     W_REG(M);
     return E_N;
 }
@@ -90,5 +93,5 @@ static int step(int e)
     return MC_OK;
 }
 
-static const mc_harness H = { "C10", "c10", 4, cfg_name, build, ev_name, step, 6, 8 };
+static const mc_harness H = { "C10", "c10", 5, cfg_name, build, ev_name, step, 6, 8 };
 int main(int argc, char **argv) { return mc_main(argc, argv, &H); }
